@@ -4,6 +4,7 @@ import csv
 import io
 
 from harness import sessions
+from harness.common import bud
 from harness.sessions import SB
 
 PROP = "C20"
@@ -347,7 +348,7 @@ def run(ctx, out, budget):
                 "array, view, indexed} whose text must differ; no call may raise; rows ordered by begin asc / end desc; every text is "
                 "also produced by the Lean model (cells -> csv via the same stdlib writer). Non-trivial = distinct (CAS, variant) pairs.")
     rng = ctx.rng(0)
-    n = 40 if budget == "quick" else 5600
+    n = bud(budget, 40, 5600)
     sess, metas = [], []
     for k in range(n):
         spec = gen_spec(rng, rng.randint(2, 8))
